@@ -147,6 +147,11 @@ func GetDocCommentOn(file *ast.File, obj types.Object) (cg *ast.CommentGroup, cl
 					}
 				}
 			}
+			if _, isFunc := obj.(*types.Func); isFunc {
+				// A method without a comment of its own has none: the comment of the interface
+				// that declares it (possibly one that is merely embedded) documents that interface.
+				return nil, func() {}
+			}
 		case *ast.File:
 			// The package doc comment documents the package, not the object.
 			return nil, func() {}
